@@ -172,14 +172,16 @@ InScope(rf, c, p) == p \in rf.ml \cup rf.mr \cup (IF Listing(c) THEN rf.pe ELSE 
 KindOK(rf, c, p)  == IF Listing(c) THEN p \in rf.ml \cup rf.pe ELSE p \in rf.mr
 
 \* which rule a path outside the reference fails (index into RuleNames): the rule its shallowest unfiltered
-\* derivation fails; if that derivation passes every rule itself, the rule its directory fails; 7 = not matched by
-\* the glob pattern it would have to come from; 8 = not reachable from the start URLs at all
+\* derivation fails; if that derivation passes every rule itself, the rule its directory fails; 7 = it lies below the
+\* directory of a start URL with glob characters but is not matched by the pattern (or globbing is switched off);
+\* 8 = not reachable from the start URLs at all
 Cands(sc, R0, q) == {n \in R0 : (n.k # "g" /\ n.p = q) \/ (n.k = "g" /\ Par(n.p) = q)}
 FirstFail(sc, n) == LET F == {i \in 1..6 : ~RuleOK(sc, n, RuleNames[i])} IN IF F = {} THEN 0 ELSE MinOf(F)
 RECURSIVE Why(_, _, _, _)
 Why(sc, R0, q, fuel) ==
   LET C == Cands(sc, R0, q) IN
-  IF C = {} THEN (IF \E g \in Starts(sc) : g.k = "g" /\ IsPrefix(Par(g.p), q) THEN 7 ELSE 8)
+  IF C = {} THEN (IF \E s \in Range(sc.starts) : ~s.slash /\ s.p # <<>> /\ HasGlob(Last(s.p)) /\ IsPrefix(Par(s.p), q)
+                 THEN 7 ELSE 8)
   ELSE LET lo == MinOf({n.lvl : n \in C})
            ff == {FirstFail(sc, n) : n \in {m \in C : m.lvl = lo}}
        IN IF 0 \notin ff THEN MinOf(ff)
@@ -377,7 +379,7 @@ StartsAQuick == { <<S1(<<"pub">>)>>, <<S0(<<"pub">>)>>, <<S0(<<"pub", "a.txt">>)
                   <<S0(<<"pub", "*.txt">>)>>, <<S0(<<"pub*">>)>>, <<S0(<<"pub", "private", "*">>)>>,
                   <<S0(<<"pub", "nest">>), S0(<<"pub", "n*">>)>>, <<S1(<<"pub2">>), S0(<<"pub", "private", "s.txt">>)>> }
 StartsB == { <<S1(<<"g">>)>>, <<S0(<<"g", "f[1].txt">>)>>, <<S0(<<"g", "s*">>)>>, <<S0(<<"g", "s[x]">>)>>,
-             <<S1(<<"g", "s[x]">>)>>, <<S0(<<"g", "f?.txt">>)>>, <<S0(<<"g", "[!f]*">>)>> }
+             <<S1(<<"g", "s[x]">>)>>, <<S0(<<"g", "f*.txt">>)>>, <<S0(<<"g", "[!f]*">>)>> }
 StartsC == { <<S1(<<"a">>)>>, <<S0(<<"a", "b">>)>>, <<S0(<<"a", "*">>)>>, <<S0(<<"a", "b", "c.txt">>)>>,
              <<S1(<<"a", "b">>), S0(<<"r.txt">>)>> }
 
